@@ -130,6 +130,24 @@ func c10BodyCli(modes []sysMode, cliPipeChoice bool) func(x *X) {
 				x.Fail("C10/unary-blocked/"+label, "the unary call in flight is still blocked after %s", label)
 			}
 		}
+		if connEnded {
+			// the sibling stream went down with the connection as well
+			var sb []byte
+			sibDone := false
+			var se1, se2 error
+			vs.GoNamed("sibling-after-loss", func() {
+				se1 = sib.ReadMessage(nil, &sb)
+				m := []byte{4, 5, 6}
+				se2 = sib.WriteMessage(&m)
+				sibDone = true
+			})
+			vs.Quiesce()
+			if !sibDone {
+				x.Fail("C10/later-op-blocked/"+label, "a ReadMessage/WriteMessage on a second stream of the lost connection blocks after %s", label)
+			} else if se1 != rpc.ErrStreamShutdown || se2 != rpc.ErrStreamShutdown {
+				x.Fail("C10/later-op-error/"+label, "after %s a ReadMessage on a second stream of the connection returned %v and WriteMessage %v, want ErrStreamShutdown", label, se1, se2)
+			}
+		}
 		if s.w.streamsIn != 2 {
 			x.Fail("C10/handlers-not-started", "%d stream handlers entered, want 2", s.w.streamsIn)
 		}
@@ -208,7 +226,7 @@ func init() {
 	register(&Scenario{Prop: "C10", Name: "c10/open-then-disconnect", Quick: []Bound{{1, 0}, {2, 0}}, Thorough: []Bound{{3, 0}}, Body: c10OpenThenGone(c08SrvModes), OnlyKeys: []string{"C10/", "panic/", "livelock/"}})
 	register(&Scenario{Prop: "C20", Name: "c20/server-after-abrupt-clients", Quick: []Bound{{1, 0}, {2, 0}}, Thorough: []Bound{{3, 0}}, Body: c10OpenThenGone(c08SrvModes[:3]), OnlyKeys: []string{"C20/", "panic/", "livelock/"}})
 	register(&Scenario{Prop: "C10", Name: "c10/servecodec-atomic", Quick: []Bound{{1, 0}}, Thorough: []Bound{{2, 0}}, Body: c10Body(sysModes[:1]), Atomic: true})
-	register(&Scenario{Prop: "C10", Name: "c10/servecodec-clientpipelining", Quick: []Bound{{2, 0}}, Thorough: []Bound{{3, 0}}, Body: c10BodyCli(sysModes[:1], true)})
+	register(&Scenario{Prop: "C10", Name: "c10/servecodec-clientpipelining", Quick: []Bound{{2, 0}}, Thorough: []Bound{{3, 0}}, Body: c10BodyCli(sysModes[:1], true), BudgetQ: 30})
 	register(&Scenario{Prop: "C10", Name: "c10/servecodec", Quick: []Bound{{1, 0}, {2, 0}}, Thorough: []Bound{{3, 0}}, Body: c10Body(sysModes[:1])})
 	register(&Scenario{Prop: "C10", Name: "c10/allmodes", Quick: []Bound{{1, 0}}, Thorough: []Bound{{2, 0}}, Body: c10Body(sysModes)})
 }
